@@ -56,6 +56,15 @@ func (t *Collection) markReclaimable(n *node, reclaimMark *node) {
 		return
 	}
 	n.next = reclaimMark
+	n.left.markLateLoad()
+	n.right.markLateLoad()
+}
+
+// markLateLoad remembers whether the child behind nloc was still on file
+// only when its parent got replaced (see nodeLoc.lateLoad).
+func (nloc *nodeLoc) markLateLoad() {
+	loc, node := nloc.LocNode()
+	nloc.lateLoad = node == nil && !loc.isEmpty()
 }
 
 func (t *Collection) reclaimMarkUpdate(nloc *nodeLoc,
@@ -89,6 +98,8 @@ func (t *Collection) reclaimMarkClear(nloc *nodeLoc, reclaimMark *node) {
 	t.rootLock.Lock()
 	if n.next == reclaimMark {
 		n.next = nil
+		n.left.lateLoad = false
+		n.right.lateLoad = false
 	}
 	t.rootLock.Unlock()
 	t.reclaimMarkClear(&n.left, reclaimMark)
@@ -118,10 +129,34 @@ func (t *Collection) reclaimNodesUnlocked(n *node,
 	if !n.right.isEmpty() {
 		right = n.right.Node()
 	}
+	leftLate, rightLate := n.left.lateLoad, n.right.lateLoad
 	t.freeNodeUnlocked(n, reclaimMark)
-	numLeft := t.reclaimNodesUnlocked(left, reclaimLater, reclaimMark)
-	numRight := t.reclaimNodesUnlocked(right, reclaimLater, reclaimMark)
+	var numLeft, numRight int64
+	if leftLate {
+		numLeft = t.reclaimLateLoadedUnlocked(left)
+	} else {
+		numLeft = t.reclaimNodesUnlocked(left, reclaimLater, reclaimMark)
+	}
+	if rightLate {
+		numRight = t.reclaimLateLoadedUnlocked(right)
+	} else {
+		numRight = t.reclaimNodesUnlocked(right, reclaimLater, reclaimMark)
+	}
 	return 1 + numLeft + numRight
+}
+
+// reclaimLateLoadedUnlocked recycles a subtree that was fetched from the
+// file through a child location of an already replaced node (see
+// nodeLoc.lateLoad).  No newer version shares any of these nodes: they
+// were never marked and would otherwise stay behind, together with the
+// references to the items they cache.
+func (t *Collection) reclaimLateLoadedUnlocked(n *node) int64 {
+	if n == nil || n.next != nil {
+		return 0
+	}
+	left, right := n.left.Node(), n.right.Node()
+	t.freeNodeUnlocked(n, nil)
+	return 1 + t.reclaimLateLoadedUnlocked(left) + t.reclaimLateLoadedUnlocked(right)
 }
 
 // Assumes that the caller serializes invocations.
